@@ -15,6 +15,8 @@ def tla(v):
         return str(v)
     if isinstance(v, str):
         return '"' + v.replace('\\', '\\\\').replace('"', '\\"').replace('\n', '\\n').replace('\t', '\\t') + '"'
+    if isinstance(v, SetOf):
+        return '{' + ', '.join(tla(x) for x in v) + '}'
     if isinstance(v, (list, tuple)):
         return '<<' + ', '.join(tla(x) for x in v) + '>>'
     if isinstance(v, (set, frozenset)):
@@ -49,6 +51,10 @@ def cfg_constants(defs, plain=None):
     for k, v in (plain or {}).items():
         lines.append('  %s = %s' % (k, v))
     return '\n'.join(lines) + '\n'
+
+
+class SetOf(list):
+    """a list to be emitted as a TLA+ set (for elements that are not hashable in python)"""
 
 
 class Raw(object):
